@@ -823,46 +823,43 @@ Proof.
 Qed.
 
 (* the reader recovers the group path, the recorded name and the basename of every element
-   from one entry "flat: absolute" of the mapping attributes *)
-Lemma unflatten_var_spec : forall hash p n,
-  free slash (p ++ [n]) -> short p n ->
-  unflatten_var (flat_name hash p n) (pathname p n) =
-    (p, match p with [] => n | _ => pathname p n end, n).
+   from one entry "flat: absolute" of the mapping attributes - whatever the flattened name is
+   (plain, hashed, or with a counter appended) *)
+Lemma unflatten_var_spec : forall flat p n,
+  free slash (p ++ [n]) ->
+  unflatten_var flat (pathname p n) =
+    (p, match p with [] => n | _ => pathname p n end, match p with [] => flat | _ => n end).
 Proof.
-  intros hash p n F S. assert (Fp : free slash p /\ mem_chr slash n = false).
+  intros flat p n F. assert (Fp : free slash p /\ mem_chr slash n = false).
   { unfold free in *. apply Forall_app in F as [F1 F2]. inversion F2; subst. split; assumption. }
   destruct Fp as [Fp Fn]. destruct p as [|a p].
-  - unfold unflatten_var, pathname. simpl flat_name.
+  - unfold unflatten_var, pathname.
     change (slash :: n) with ([] ++ slash :: n). rewrite split_on_app by reflexivity.
     rewrite split_on_free by assumption. reflexivity.
   - unfold unflatten_var. rewrite pathname_abs by discriminate.
     rewrite split_abs_name by assumption. rewrite mid_cons_snoc.
-    assert (E : flat_name hash (a :: p) n = (join sep2 (a :: p) ++ sep2) ++ n).
-    { rewrite flat_name_short by assumption. rewrite join_snoc2 by discriminate. rewrite <- app_assoc. reflexivity. }
-    rewrite E, strip_prefix_app. reflexivity.
+    change ([] :: (a :: p) ++ [n]) with (([] :: a :: p) ++ [n]). rewrite last_app_single. reflexivity.
 Qed.
 
-Lemma unflatten_dim_spec : forall hash p n,
-  free slash (p ++ [n]) -> short p n ->
-  unflatten_dim_gen true (flat_name hash p n) (pathname p n) =
-    (p, match p with [] => n | _ => pathname p n end, n).
+Lemma unflatten_dim_spec : forall flat p n,
+  free slash (p ++ [n]) ->
+  unflatten_dim_gen true flat (pathname p n) =
+    (p, match p with [] => n | _ => pathname p n end, match p with [] => flat | _ => n end).
 Proof.
-  intros hash p n F S. assert (Fp : free slash p /\ mem_chr slash n = false).
+  intros flat p n F. assert (Fp : free slash p /\ mem_chr slash n = false).
   { unfold free in *. apply Forall_app in F as [F1 F2]. inversion F2; subst. split; assumption. }
   destruct Fp as [Fp Fn]. destruct p as [|a p].
-  - unfold unflatten_dim_gen, pathname. simpl flat_name.
+  - unfold unflatten_dim_gen, pathname.
     simpl starts_with. rewrite Ascii.eqb_refl. simpl andb.
     simpl count_chr. rewrite Ascii.eqb_refl. rewrite count_chr_free by assumption. simpl Nat.eqb. cbv iota.
     simpl tl. rewrite split_on_free by assumption. reflexivity.
   - unfold unflatten_dim_gen. rewrite pathname_abs by discriminate.
-    destruct (abs_name_shape a p n) as [pre E]. 
+    destruct (abs_name_shape a p n) as [pre E].
     assert (C : Nat.eqb (count_chr slash (abs_name (a :: p) n)) 1 = false).
     { rewrite E. apply Nat.eqb_neq. simpl count_chr. rewrite Ascii.eqb_refl, count_chr_app. simpl count_chr.
       rewrite Ascii.eqb_refl. lia. }
     rewrite C, andb_false_r. rewrite split_abs_name by assumption. rewrite mid_cons_snoc.
-    assert (E2 : flat_name hash (a :: p) n = (join sep2 (a :: p) ++ sep2) ++ n).
-    { rewrite flat_name_short by assumption. rewrite join_snoc2 by discriminate. rewrite <- app_assoc. reflexivity. }
-    rewrite E2, strip_prefix_app. reflexivity.
+    change ([] :: (a :: p) ++ [n]) with (([] :: a :: p) ++ [n]). rewrite last_app_single. reflexivity.
 Qed.
 
 (* ------------------------------------------------------------------ non-vacuity of the guarded statements *)
@@ -897,7 +894,7 @@ Example groups_roundtrip_nonvacuous :
 Proof. splits; reflexivity. Qed.
 
 Example unflatten_nonvacuous :
-  unflatten_var (flat_name (fun x => x) [s "forecast"; s "model"] (s "ta")) (pathname [s "forecast"; s "model"] (s "ta"))
+  unflatten_var (s "forecast__model__ta_1") (pathname [s "forecast"; s "model"] (s "ta"))
   = ([s "forecast"; s "model"], s "/forecast/model/ta", s "ta").
 Proof. reflexivity. Qed.
 
